@@ -162,7 +162,13 @@ func (en *Engine) external(st *State, fr *Frame, x *ssa.Call, name string, calle
 			st.treeEpoch++
 		}
 	default:
-		st.treeEpoch++
+		// unmodelled external: it can reach a tree only through a pointer-carrying argument
+		for _, a := range args {
+			if a == nil || mayPointTo(a.Type()) {
+				st.treeEpoch++
+				break
+			}
+		}
 	}
 	switch {
 	case ct != nil:
@@ -405,7 +411,13 @@ func modulePureRec(p *Prog, fn *ssa.Function, seen map[*ssa.Function]bool) bool 
 					} else {
 						ct := lookupContract(v.String())
 						if ct == nil {
-							pure = false
+							// an unmodelled external function that receives only immutable values (strings,
+							// numbers, booleans) has no path to the caller's objects
+							for _, a := range c.Args {
+								if mayPointTo(a.Type()) {
+									pure = false
+								}
+							}
 						} else if len(ct.Writes) > 0 {
 							for _, wi := range ct.Writes {
 								if wi < len(c.Args) && !localIface(c.Args[wi], localBase) {
@@ -476,7 +488,19 @@ func moduleTreePure(p *Prog, fn *ssa.Function, seen map[*ssa.Function]bool) bool
 				continue
 			}
 			ct := lookupContract(name)
-			if ct == nil || ct.TreeMutator || ct.Iterate {
+			if ct == nil {
+				args := ci.Common().Args
+				if ci.Common().IsInvoke() {
+					pure = false
+				}
+				for _, a := range args {
+					if mayPointTo(a.Type()) {
+						pure = false
+					}
+				}
+				continue
+			}
+			if ct.TreeMutator || ct.Iterate {
 				pure = false
 			}
 		}
